@@ -43,7 +43,7 @@ func (p *Prog) VerifyFunc(con *Contract) (res *FuncResult) {
 		return
 	}
 	x := &exec{p: p, c: NewCtx(con.Mode), fn: fn, con: con, subAx: map[string]bool{}, notes: map[string]bool{},
-		exprAt: exprIndex(fn), specFns: map[string]*specFn{}, pureFns: map[string]bool{}, fnName: fn.String(), fnPos: fn.Pos()}
+		exprAt: exprIndex(fn), specFns: map[string]*specFn{}, pureFns: map[string]bool{}, fnName: fn.String(), fnPos: fn.Pos(), sliceElem: map[string]string{}, mapField: map[string]*types.Map{}}
 	x.h = &heapEnv{c: x.c, sorts: map[string]string{}}
 	defer func() {
 		if r := recover(); r != nil {
@@ -85,6 +85,12 @@ func (x *exec) verify(res *FuncResult) {
 		vars[names[i]] = v
 		x.assume(st, x.wf(term, prm.Type()))
 		x.assume(st, x.aliveVal(st, v))
+		switch prm.Type().Underlying().(type) {
+		case *types.Pointer, *types.Map:
+			st.aliveRefs = append(st.aliveRefs, term)
+		case *types.Slice:
+			st.aliveRefs = append(st.aliveRefs, App("s-ref", term))
+		}
 		x.inputs = append(x.inputs, ModelVar{Name: names[i], Term: term, Type: prm.Type().String()})
 	}
 	tp := fn.Pkg.Pkg
@@ -300,6 +306,15 @@ func (x *exec) loopEnv(fr *frame, li *loopInfo, s *State) *Env {
 	// $i: completed iterations of a range loop
 	for _, in := range li.head.Instrs {
 		switch i := in.(type) {
+		case *ssa.UnOp:
+			// NaiveForm: the range index lives in a local cell named "rangeindex"
+			if a, ok := i.X.(*ssa.Alloc); ok && a.Comment == "rangeindex" {
+				if _, done := env.vars["$i"]; !done {
+					if v, ok := s.cells[a]; ok && v.T != "" {
+						env.vars["$i"] = x.mkVal(x.c.IAdd(v.T, x.c.ILit(1)), types.Typ[types.Int])
+					}
+				}
+			}
 		case *ssa.Phi:
 			if i.Comment == "rangeindex" {
 				if v, ok := fr.vals[i]; ok {
@@ -313,6 +328,9 @@ func (x *exec) loopEnv(fr *frame, li *loopInfo, s *State) *Env {
 						env.vars["$i"] = c
 						env.vars["$n"] = x.mkVal(ri.n, types.Typ[types.Int])
 						x.rangeSeq(env, ri)
+						if vis := s.ghost[ri.visName]; vis != nil {
+							env.visited = vis.T
+						}
 					}
 				}
 			}
